@@ -253,9 +253,6 @@ pub fn triggers(q: &Query) -> Vec<&'static str> {
     if ordered && q.body.is_setop() {
         v.push("setop_order_limit");
     }
-    if ordered && !q.body.is_setop() && q.body.first_select().is_agg() {
-        v.push("aggregate_order_by");
-    }
     v.sort();
     v.dedup();
     v
@@ -303,10 +300,6 @@ impl Check for C01 {
             }
             if cfg.avoiding("c01.trigger.right_full_join") {
                 qo.right_full = false;
-                excluded += 1;
-            }
-            if cfg.avoiding("c01.trigger.aggregate_order_by") {
-                qo.order_on_agg = false;
                 excluded += 1;
             }
             if cfg.avoiding("c01.trigger.self_join_where") {
